@@ -95,6 +95,10 @@ def cases(sh, tier):
                         inserts = [None, 0]
                     for ins in inserts:
                         yield {"a": s, "op": "flatten", "sub": sub, "cont": cont, "insert": ins, "reverse": False}
+                    if cont == "tuple":
+                        # negative insert positions count from the end, as for newaxis / numpy.expand_dims: -1 = after the last kept dimension
+                        for ins in range(-1, -(nd - k + 2), -1):
+                            yield {"a": s, "op": "flatten", "sub": sub, "cont": cont, "insert": ins, "reverse": False}
                 if k < nd:
                     yield {"a": s, "op": "flatten", "sub": sub, "cont": "tuple", "insert": 0, "reverse": True}
                     yield {"a": s, "op": "flatten", "sub": sub, "cont": "tuple", "insert": None, "reverse": True}
@@ -244,6 +248,8 @@ def _flatten_call(a, sub, cont, insert, reverse):
 def _layout_flatten(dims, sub, insert):
     rest = [("plain", d) for d in dims if d not in sub]
     pos = insert if insert is not None else 0
+    if pos < 0:
+        pos += len(rest) + 1
     return rest[:pos] + [("group", list(sub))] + rest[pos:]
 
 
